@@ -32,6 +32,7 @@ from ._helper import (
     _create_name_annotation,
     _get_shortest_public_reexport,
     _replace_if_safeds_keyword,
+    _replace_if_safeds_keyword_in_path,
 )
 
 if TYPE_CHECKING:
@@ -91,7 +92,7 @@ class StubsStringGenerator:
                 module_name_info = ""
                 if package_info != package_info_camel_case:
                     module_name_info = f'@PythonModule("{package_info}")\n'
-                module_header = f"{module_name_info}package {package_info_camel_case}\n"
+                module_header = f"{module_name_info}package {_replace_if_safeds_keyword_in_path(package_info_camel_case)}\n"
 
                 # Create body text
                 if isinstance(element, Class):
@@ -135,7 +136,7 @@ class StubsStringGenerator:
         module_name_info = ""
         if package_info != package_info_camel_case:
             module_name_info = f'@PythonModule("{package_info}")\n'
-        module_header = f"{module_name_info}package {package_info_camel_case}\n"
+        module_header = f"{module_name_info}package {_replace_if_safeds_keyword_in_path(package_info_camel_case)}\n"
 
         # Create docstring
         docstring = self._create_sds_docstring_description(module.docstring, "")
@@ -181,7 +182,7 @@ class StubsStringGenerator:
 
             from_ = ".".join(import_parts[0:-1])
             from_ = _convert_name_to_convention(from_, self.naming_convention)
-            from_ = _replace_if_safeds_keyword(from_)
+            from_ = _replace_if_safeds_keyword_in_path(from_)
 
             name = import_parts[-1]
             name = _convert_name_to_convention(name, self.naming_convention, is_class_name=True)
